@@ -253,6 +253,9 @@ class LenInterp:
                             pass
                     if nonneg((-a).normal()):
                         return -self.ceildiv((-a).normal(), b, e)
+                if isinstance(e.op, ast.Mod) and (b - S).is_zero() and nonneg((-a).normal()):
+                    # (-a) % s for a >= 0 (Python's modulo is non-negative): what completes a to a whole number of steps, s * ceil(a / s) - a
+                    return S * self.ceildiv((-a).normal(), b, e) + a
                 if isinstance(e.op, ast.FloorDiv) and (b - Poly.const(2)).is_zero():
                     # only (2h + 1) // 2 = h and 2h // 2 = h are needed
                     if (a - H.scale(2) - Poly.const(1)).is_zero() or (a - H.scale(2)).is_zero():
